@@ -118,3 +118,84 @@ func H_C13_sequential() {
 	vCheckRollFiles(dir, app, m)
 	vReach("end")
 }
+
+//verif:witness H_C13_concurrent end
+//verif:bound C13 quick 2 concurrent writers x 1 write each, every clock reading arbitrary non-decreasing, interval 1 s, pre-emption at every visible operation (atomics, file write/close, channel, thread start/exit) with at most 2 pre-emptive switches, under the stall rule
+//verif:bound C13 thorough 2 writers x 1..2 writes, 3 pre-emptive switches, under the stall rule; the same exploration without the stall rule is reported as 'unconfirmed_outside_claim'
+//verif:assume C13 in the concurrent harness all clock readings lie within 1000 s (retention, C14, is not the subject and must not expire the files under test)
+//verif:assume C13 stall rule: the clock does not move into a later interval while another writer is suspended inside RollingFileAppender.Write (a writer stalled across a whole interval between two adjacent statements can lose its write to an already closed file; that schedule cannot be enforced natively and is outside the claim)
+//verif:engine-only H_C13_concurrent
+//verif:engine-only H_C13_concurrent_nostall
+//verif:unconfirmed H_C13_concurrent_nostall
+
+func vRollConcurrent(stall bool, perWriter, preempt int) {
+	vOpt("loop", 400)
+	vOpt("schedall", 1)
+	vOpt("preempt", preempt)
+	vClockMode(1)
+	vClockWindow(1000) // far below the retention age, so the cleanup goroutine removes nothing
+	if stall {
+		vClockStall(1)
+	}
+	root := vFSRoot()
+	defer vFSCleanup()
+	dir := root + "/logs"
+	vFSMkdir(dir)
+	app := &RollingFileAppender{FileDir: dir, FileName: "r", Rotation: TimeRotation{Interval: time.Second}, MaxAge: 168}
+	if err := app.Start(); err != nil {
+		panic(err)
+	}
+	done := make(chan int, 2)
+	payloads := [][]byte{{'A', '\n'}, {'B', '\n'}, {'C', '\n'}, {'D', '\n'}}
+	for w := 0; w < 2; w++ {
+		go func(w int) {
+			for i := 0; i < perWriter; i++ {
+				app.Write(payloads[w*2+i])
+			}
+			done <- 1
+		}(w)
+	}
+	<-done
+	<-done
+	app.Stop()
+	// every payload whole, exactly once, in exactly one well-named file
+	var all []byte
+	for _, n := range vFSNames(dir) {
+		vAssert(len(n) == 16 && n[0] == 'r' && n[1] == '.', "file-name-is-name-dot-timestamp")
+		c, _ := vFSRead(dir, n)
+		vAssert(len(c)%2 == 0, "lines-are-whole")
+		all = append(all, c...)
+	}
+	for w := 0; w < 2; w++ {
+		for i := 0; i < perWriter; i++ {
+			p := payloads[w*2+i]
+			count := 0
+			for k := 0; k+1 < len(all); k += 2 {
+				if all[k] == p[0] && all[k+1] == p[1] {
+					count++
+				}
+			}
+			vAssert(count == 1, "every-write-lands-exactly-once")
+		}
+	}
+	vAssert(vFSOpenFDs() == 0, "no-descriptor-left-open-after-stop")
+	vReach("end")
+}
+
+func H_C13_concurrent() {
+	if vTier() > 0 {
+		vRollConcurrent(true, 1+vChoose("perWriter", 2), 3)
+	} else {
+		vRollConcurrent(true, 1, 2)
+	}
+}
+
+// H_C13_concurrent_nostall: the same exploration without the stall rule (thorough tier only);
+// what it finds is recorded as unconfirmed, outside the claim.
+func H_C13_concurrent_nostall() {
+	if vTier() == 0 {
+		vReach("end")
+		return
+	}
+	vRollConcurrent(false, 2, 3)
+}
